@@ -63,6 +63,8 @@ class Lin:
                 and isinstance(t[0][0], str) and re.search(r"split_at(_mut)?$", t[0][0]) and len(t[0]) == 3:
             mid = self.lin(t[0][2])
             return mid if t[1].startswith(".0") else add(self.len_lin(t[0][1]), mid, -1)
+        if isinstance(t, tuple) and t and t[0] == "array":
+            return {1: len(t) - 1} if len(t) > 1 else {}
         if is_index(t):
             r = t[2]
             if isinstance(r, tuple):
@@ -96,6 +98,14 @@ class Lin:
             if isinstance(t[0], str) and t[0] in LEN_FNS and len(t) == 2:
                 return self.len_lin(t[1])
         return {self.namer.leaf(t): 1}
+
+
+def fm_const(d):
+    if not d:
+        return 0
+    if set(d) == {1}:
+        return d[1]
+    return None
 
 
 def guard_constraint(L, op, a, b, v):
@@ -197,6 +207,51 @@ class Walker:
         self.prove("%s: start <= end in %s" % (nm, show(rng)[:60]), add(hi, lo, -1))
         self.prove("%s: end <= len in %s" % (nm, show(rng)[:60]), add(ln, hi, -1))
 
+    TYMAX = {"u8": 255, "u16": 65535, "u32": (1 << 32) - 1, "u64": U64, "usize": U64, "u128": (1 << 128) - 1}
+
+    def assertion(self, e, pos):
+        """a MIR Assert terminator logged by E2 (log_asserts): bounds check / arithmetic overflow / division"""
+        _k, msg, binop, ops, tys, cond, expected, line = e
+        ops = [C.expr_of(self.pa, o, 0, pos) for o in ops]
+        what = "%s%s at line %s" % (msg, (":" + binop) if binop else "", line)
+        if cond is not None and cond == (1 if expected else 0):
+            self.n += 1                         # the condition folded to the expected constant
+            self.proved.append(what)
+            return
+        if msg == "BoundsCheck" and len(ops) == 2:
+            ln, ix = ops
+            self.prove("%s: index < len" % what, add(add(self.L.lin(ln), self.L.lin(ix), -1), {1: -1}))
+            return
+        if msg == "Overflow" and binop in ("Add", "Sub", "Mul", "Shl", "Shr") and len(ops) == 2:
+            ty = tys[0] if tys and tys[0] in self.TYMAX else None
+            if binop in ("Shl", "Shr"):
+                bits = {"u8": 8, "u16": 16, "u32": 32, "u64": 64, "usize": 64, "u128": 128}.get(ty)
+                if bits is None:
+                    self.failed.append("%s: operand type %s" % (what, tys))
+                    return
+                self.prove("%s: shift amount < %d" % (what, bits), add({1: bits - 1}, self.L.lin(ops[1]), -1))
+                return
+            if ty is None:
+                self.failed.append("%s: operand type %s" % (what, tys))
+                return
+            a, b = self.L.lin(ops[0]), self.L.lin(ops[1])
+            if binop == "Add":
+                self.prove("%s fits %s" % (what, ty), add(add({1: self.TYMAX[ty]}, a, -1), b, -1))
+            elif binop == "Sub":
+                self.prove("%s does not underflow" % what, add(a, b, -1))
+            else:
+                ca, cb = fm_const(a), fm_const(b)
+                if ca is not None and cb is not None:
+                    self.prove("%s fits %s" % (what, ty), {1: self.TYMAX[ty] - ca * cb})
+                elif cb is not None and cb >= 0:
+                    self.prove("%s fits %s" % (what, ty), add({1: self.TYMAX[ty]}, {k: v * cb for k, v in a.items()}, -1))
+                elif ca is not None and ca >= 0:
+                    self.prove("%s fits %s" % (what, ty), add({1: self.TYMAX[ty]}, {k: v * ca for k, v in b.items()}, -1))
+                else:
+                    self.failed.append("%s: non-linear product" % what)
+            return
+        self.failed.append("%s: no rule" % what)
+
     # --- replay
     def run(self, on_call=None, start=0, stop=None, with_ret=True):
         """replay log[start:stop]; labels are resolved at the position of their use"""
@@ -221,9 +276,9 @@ class Walker:
                 m = re.match(r"variant\((ret:.*)\)$", str(e[1]))
                 if m:
                     for lab in [l for l in pending if m.group(1) == l or m.group(1).startswith(l + ".")]:
-                        f, call, args = pending[lab]
-                        suffix = m.group(1)[len(lab):]
-                        self.facts.extend(f(self, call, args, suffix, e[2]) or [])
+                        for f, call, args in pending[lab]:
+                            suffix = m.group(1)[len(lab):]
+                            self.facts.extend(f(self, call, args, suffix, e[2]) or [])
             elif e[0] == "call":
                 args = C.expr_of(pa, e[2], 0, pos)
                 nm = C.short(e[1])
@@ -243,9 +298,12 @@ class Walker:
                 for rx, f in self.contracts:
                     if rx.search(e[1]):
                         self.facts.extend(f(self, e, args, None, None) or [])
-                        pending[e[4]] = (f, e, args)
+                        if not any(x[1] is e and x[0] is f for x in pending.get(e[4], [])):
+                            pending[e[4]] = [x for x in pending.get(e[4], []) if x[1] is e] + [(f, e, args)]
                 if on_call is not None:
                     on_call(self, e, args)
+            elif e[0] == "assert":
+                self.assertion(e, pos)
             elif e[0] in ("write", "write-elem") and len(e) > 3:
                 self.arith(C.expr_of(pa, e[3], 0, pos))
         if with_ret:
